@@ -243,6 +243,33 @@ pub fn run(ctx: &Ctx) -> i32 {
         }
     });
     col.layer("bytes x splits", done, complete, json!({"max_units": maxlen, "units": ["a", "b", "LF", "CR", "C3A9", "FF"], "max_files": 3}));
+    // byte order marks: all contents of <= 5 units over {EF BB BF, a, LF, CR} x splits (a mark is three bytes of its line
+    // like any others, at the start of a file, after a line end and inside a line, also cut by a file boundary)
+    {
+        let bunits: [&[u8]; 4] = [&[0xEF, 0xBB, 0xBF], b"a", b"\n", b"\r"];
+        let kb = bunits.len() as u64;
+        let total = seq_count(kb, 5);
+        let (done, complete) = par_for_budget(ctx, total, 16, |idx| {
+            let seq = seq_decode(idx, kb, 5);
+            if !seq.contains(&0) {
+                return;
+            }
+            let content: Vec<u8> = seq.iter().flat_map(|u| bunits[*u as usize].iter().copied()).collect();
+            let max_parts = if content.len() <= 6 { 3 } else { 2 };
+            for cuts in byte_cuts(content.len(), max_parts) {
+                let (fs, nt, ok) = case_run(&tables, &content, &cuts);
+                col.eval(3);
+                if nt {
+                    col.nontrivial(h64(&("bom", &content, &cuts)));
+                }
+                col.outcome(ok);
+                for f in fs {
+                    col.fail(f);
+                }
+            }
+        });
+        col.layer("byte order marks x splits", done, complete, json!({"max_units": 5, "units": ["EFBBBF", "a", "LF", "CR"]}));
+    }
     // buffer-boundary layer: special sequences placed around multiples of the reader's buffer size (8192)
     let patterns: [&[u8]; 8] = [b"\r\n", b"a\r\nb\r\n", &[0xC3, 0xA9, b'\n'], &[0xF0, 0x9F, 0x98, 0x80, b'\n'], b"\n\n", b"a", b"a\r", b"ab\n"];
     let mut nb = 0u64;
